@@ -1567,11 +1567,23 @@ class TemplateExpression:
 
     def __call__(self, *args: t.Any, **kwargs: t.Any) -> t.Any | None:
         context = self._template.new_context(dict(*args, **kwargs))
-        consume(self._template.root_render_func(context))
+
+        if self._template.environment.is_async:
+            # the root render function is an async generator function
+            import asyncio
+
+            asyncio.run(self._consume_async(context))
+        else:
+            consume(self._template.root_render_func(context))
+
         rv = context.vars["result"]
         if self._undefined_to_none and isinstance(rv, Undefined):
             rv = None
         return rv
+
+    async def _consume_async(self, context: Context) -> None:
+        async for _ in self._template.root_render_func(context):  # type: ignore
+            pass
 
 
 class TemplateStream:
